@@ -271,6 +271,36 @@ func runAll(frs []*FuncResult, timeout, jobs int, keepDir string) []*Verdict {
 					v.Candidate = true
 				}
 			}
+			if v.Model != nil && (v.Status == "sat" || v.Candidate) {
+				// prefer a small counterexample (replayable): bound the lengths of the slice/string parameters
+				var bounds []string
+				s3probe := j.fr.Enc.script(j.o, v.Candidate)
+				for _, mv := range j.fr.Enc.modelDesc {
+					if (mv.Kind == "bytes" || mv.Kind == "string" || mv.Kind == "slice") && len(mv.Terms) >= 2 {
+						bounds = append(bounds, "(assert (<= "+mv.Terms[0]+" 40))", "(assert (<= "+mv.Terms[1]+" 64))")
+						if v.Candidate && mv.Arr != "" && !j.fr.Enc.paramMayBeWritten(mv.Name) {
+							// the quantified frame axioms are dropped in the relaxation: restate, for a parameter the
+							// function never writes, that every memory version agrees with the entry content
+							for _, mver := range j.fr.Enc.memVers {
+								if mver != mv.Mem0 && strings.Contains(s3probe, mver) {
+									bounds = append(bounds, "(assert (= (select "+mver+" "+mv.Arr+") (select "+mv.Mem0+" "+mv.Arr+")))")
+								}
+							}
+						}
+					}
+				}
+				if len(bounds) > 0 {
+					s3 := s3probe
+					if k := strings.LastIndex(s3, "(check-sat)"); k >= 0 {
+						s3 = s3[:k] + strings.Join(bounds, "\n") + "\n" + s3[k:]
+						st3, _, _, t3, m3 := solve(context.Background(), s3, 3, true, terms)
+						v.Time += t3
+						if st3 == "sat" && m3 != nil {
+							v.Model = m3
+						}
+					}
+				}
+			}
 			if keepDir != "" && (os.Getenv("VCGO_KEEPALL") != "" || (v.Status != "unsat" && !j.o.Canary && !j.o.Smoke) || ((j.o.Canary || j.o.Smoke) && v.Status == "unsat")) {
 				name := strings.NewReplacer("/", "_", ":", "_", "#", "_", " ", "_", "*", "_", "[", "_", "]", "_", "(", "_", ")", "_").Replace(j.o.Name)
 				if len(name) > 150 {
